@@ -399,6 +399,51 @@ def vspace(ctx, world):
             ctx.ob("A4.vspace", f"override:{name}", True, loc_of(m, own[name]))
         else:
             ctx.fail("A4.vspace", f"override:{name}", f"ComplexArrayVSpace.{name}", loc_of(m, cx.node), f"ComplexArrayVSpace does not override {name}: it inherits the real-array version", "any complex array: size/basis count n instead of 2n, inner product not real, covector not conjugated")
+    # registry agreement: complex scalar types are registered with a complex space, real ones with a real space
+    # (the class hierarchy of NumPy's scalar types is a fact about NumPy: np.complex64 is NOT a subclass of complex)
+    import builtins as _b
+    import importlib
+
+    def pyclass(ref):
+        q = getattr(ref, "qual", None)
+        if q is None or getattr(ref, "kind", None) not in ("ext", "wrapped"):
+            return None
+        if ref.kind == "wrapped":
+            q = "numpy." + ref.name
+        root, _, rest = q.partition(".")
+        try:
+            obj = _b if root == "builtins" else (importlib.import_module("numpy") if root == "numpy" else None)
+            for part in rest.split("."):
+                obj = getattr(obj, part)
+        except Exception:
+            return None
+        return obj if isinstance(obj, type) else None
+
+    np_ = importlib.import_module("numpy")
+    n_reg = 0
+    for clsq, ttext, tref, maker, rm, site in world.table.vspace_reg:
+        if maker is not None or tref is None:
+            continue
+        pc = pyclass(tref)
+        if pc is None or not issubclass(pc, (int, float, complex, np_.number)):
+            continue
+        cr = None
+        for mm in world.repo.mods.values():
+            if clsq.startswith(mm.name + "."):
+                r0 = world.repo.resolve(mm, clsq[len(mm.name) + 1:])
+                if r0 is not None and r0.kind == "repo":
+                    cr = r0
+        if cr is None:
+            continue
+        n_reg += 1
+        space_is_complex = cx.qual in [k.qual for k in class_mro(world.repo, cr)]
+        type_is_complex = issubclass(pc, (complex, np_.complexfloating))
+        inst = f"registered scalar type {ttext} -> {clsq.rsplit('.', 1)[-1]}"
+        if space_is_complex == type_is_complex:
+            ctx.ob("A4.vspace", inst, True, loc_of(rm, site))
+        else:
+            ctx.fail("A4.vspace", inst, f"registry-kind:{ttext}", loc_of(rm, site), f"the {'complex' if type_is_complex else 'real'} scalar type {ttext} is registered with the {'complex' if space_is_complex else 'real'} space {clsq.rsplit('.', 1)[-1]}", f"a value of type {ttext} (e.g. the scalar np.sum returns for an array of that dtype): size, standard basis, inner product and covector are those of the wrong kind")
+    ctx.floor("A4.vspace registered scalar types", n_reg, 6)
     # iscomplex = True
     v = own.get("iscomplex")
     if v is not None:
